@@ -79,6 +79,17 @@ fn has_param(ty: &Ty, depth: usize) -> bool {
     }
 }
 
+/// instance name printed with definition paths (no re-export "visible" paths, no trimming): identical in every crate
+fn canon_name(tcx: TyCtxt<'_>, i: &Instance) -> Value {
+    let inst = *i;
+    catch_unwind(AssertUnwindSafe(|| {
+        let ii = rustc_internal::internal(tcx, inst);
+        let s = rustc_middle::ty::print::with_no_visible_paths!(rustc_middle::ty::print::with_no_trimmed_paths!(ii.to_string()));
+        Value::String(s)
+    }))
+    .unwrap_or(Value::Null)
+}
+
 struct Ctx<'tcx> {
     tcx: TyCtxt<'tcx>,
     tys: HashSet<Ty>,
@@ -132,7 +143,7 @@ impl<'tcx> Ctx<'tcx> {
         }
         self.insts.push((*i, depth));
         let def = self.def_json(i.def.def_id());
-        json!({"name": i.name(), "key": i.mangled_name(), "has_body": i.has_body(), "kind": format!("{:?}", i.kind), "def": def})
+        json!({"name": i.name(), "cname": canon_name(self.tcx, i), "key": i.mangled_name(), "has_body": i.has_body(), "kind": format!("{:?}", i.kind), "def": def})
     }
 
     fn describe(&mut self, ty: Ty, depth: usize) -> Value {
@@ -559,7 +570,7 @@ fn dump(tcx: TyCtxt<'_>) -> ControlFlow<()> {
                 }
                 let Some(body) = catch_unwind(AssertUnwindSafe(|| inst.body())).ok().flatten() else { continue };
                 let (b, drops, consts) = body_record(&mut cx, &body, 0);
-                let v = json!({"rec": "fn", "key": key, "name": name, "iname": inst.name(), "def": def, "krate": krate.name, "kind": format!("{:?}", item.kind()), "span": span, "body": b, "drops": drops, "consts": consts});
+                let v = json!({"rec": "fn", "key": key, "name": name, "iname": inst.name(), "cname": canon_name(tcx, &inst), "def": def, "krate": krate.name, "kind": format!("{:?}", item.kind()), "span": span, "body": b, "drops": drops, "consts": consts});
                 emit(&mut f, &mut idx, "fn", &key, &name, &v);
                 n_fn += 1;
             }
@@ -624,7 +635,7 @@ fn dump(tcx: TyCtxt<'_>) -> ControlFlow<()> {
             }
             let _ = before;
             let def = cx.def_json(inst.def.def_id());
-            let v = json!({"rec": "inst", "key": key, "name": nm, "def": def, "krate": krate.name, "depth": d2, "kind": format!("{:?}", inst.kind), "body": b, "drops": drops, "consts": consts});
+            let v = json!({"rec": "inst", "key": key, "name": nm, "cname": canon_name(tcx, &inst), "def": def, "krate": krate.name, "depth": d2, "kind": format!("{:?}", inst.kind), "body": b, "drops": drops, "consts": consts});
             emit(&mut f, &mut idx, "inst", &key, &nm, &v);
             n_inst += 1;
         }
